@@ -246,7 +246,7 @@ def chk_huge_trail_key(sel, v):
     from props.C18 import build as build_c18
     for m18 in build_c18(tier, seed).modules:
         if m18.key in ("c18_enum", "c18_flag"):
-            keep = [o for o in m18.obs if o.name.startswith("enum_rej_") or o.name.startswith("flag_exact")]
+            keep = [o for o in m18.obs if o.name.startswith("enum_rej_") or o.name.startswith("flag_exact") or o.name.startswith("flag_names_rej_")]
             m18.obs = keep
             mods.append(m18)
     return Plan("C04", mods,
